@@ -418,6 +418,32 @@ theorem hybrid_le_best_input {κ : Type} [AddMonoid κ] [LinearOrder κ] (ops : 
     OmplModel.PathHybrid.walkCost w ≤ m :=
   OmplModel.PathHybrid.hybrid_le_best_input ops w hw m hm
 
+/-- **`computeHybridPath` is specified on the CURRENT graph**: whatever was computed earlier, a shortest
+walk of the graph after further `recordPath` calls is no worse than every path recorded before AND
+after that earlier computation (no cross-connection needed: each recorded path carries its own
+root→goal chain) -/
+theorem hybrid_current_graph {κ : Type} [AddMonoid κ] [LinearOrder κ] (ops more : List (OmplModel.PathHybrid.Op κ))
+    (w : List (Nat × κ)) (hw : OmplModel.PathHybrid.IsShortest (OmplModel.PathHybrid.run (ops ++ more)).g.edges w)
+    (ws : List κ) (h : OmplModel.PathHybrid.Op.record ws ∈ ops ∨ OmplModel.PathHybrid.Op.record ws ∈ more) :
+    OmplModel.PathHybrid.walkCost w ≤ OmplModel.PathHybrid.pathCost ws :=
+  OmplModel.PathHybrid.hybrid_le_each_recorded (ops ++ more) w hw ws (List.mem_append.mpr h)
+
+/-- … and an answer computed for an EARLIER graph is not an answer for the current one: record a path
+of cost 10, compute (the walk along it is shortest), record a disjoint better path of cost 1 — the
+old walk is still a walk of the new graph but no longer a shortest one.  (An implementation that
+skips the shortest-path computation "because no cross edge was added" returns exactly this walk.) -/
+theorem hybrid_stale_answer_fails :
+    ∃ (ops more : List (OmplModel.PathHybrid.Op Nat)) (w : List (Nat × Nat)),
+      OmplModel.PathHybrid.IsShortest (OmplModel.PathHybrid.run ops).g.edges w ∧
+      OmplModel.PathHybrid.IsWalk (OmplModel.PathHybrid.run (ops ++ more)).g.edges OmplModel.PathHybrid.root w
+        OmplModel.PathHybrid.goal ∧
+      ¬ OmplModel.PathHybrid.IsShortest (OmplModel.PathHybrid.run (ops ++ more)).g.edges w :=
+  ⟨[.record [10]], [.record [1]], [(2, 0), (3, 10), (1, 0)],
+    OmplModel.PathHybrid.isShortest_of_potential (fun v => [0, 10, 0, 10].getD v 0) (by decide) (by decide) (by decide)
+      (by decide),
+    by decide,
+    fun h => (h.2 [(4, 0), (5, 1), (1, 0)] (by decide)) (by decide)⟩
+
 /-! ## the return value of simplify (fix 3ab8608d2: `return path.check()`) -/
 
 /-- `simplify` returning true implies that the resulting path passes `check()`: for inputs of fewer
